@@ -338,15 +338,16 @@ def r175(ctx, R):
          'the re-read state', why, func=f)
     inc = [s for s in ctx.cg.calls_in(f)
            if any(c.name == 'increment_generation' for c in s.callees)]
-    okg = len(inc) == 1
-    if okg:
+    okg = len(inc) <= 1
+    if len(inc) == 1:
         st = C.stmt_of(inc[0].node)
         after = g.reachable_from([st]) - {st}
         okg = not any(isinstance(x, ast.AST) and cfgmod.may_raise_stmt(x)
                       for x in after)
     R.ob('R17.5', '_set_aggregates:generation-bump-last', okg,
          'nothing that can fail (and trigger a retry) follows the '
-         'generation increment', len(inc), func=f)
+         'generation increment (if the retried body has one)', len(inc),
+         func=f)
     R.count('R17.5', 3, 3)
 
 
